@@ -10,8 +10,37 @@ from ..match import (src, dotted, walk_local, walk_unit, calls_in, const, NOCONS
 _cfg_cache = {}
 
 
+def helper_inliner(unit):
+    """inline(call): `self.m()` (no arguments) whose method body is a single
+    `return <expr>` (docstring allowed) is replaced by <expr> - one level."""
+    ci = getattr(unit, 'owner_cls', None)
+    idx = getattr(unit, 'idx', None)
+    if ci is None or idx is None:
+        return None
+
+    def inline(call):
+        d = dotted(call.func)
+        if d is None or call.args or call.keywords:
+            return None
+        parts = d.split('.')
+        if len(parts) != 2 or parts[0] != 'self':
+            return None
+        m = idx.find_method(ci, parts[1])
+        if m is None or isinstance(m.node, ast.Lambda):
+            return None
+        body = [st for st in m.node.body
+                if not (isinstance(st, ast.Expr) and isinstance(st.value, ast.Constant) and isinstance(st.value.value, str))]
+        if len(body) == 1 and isinstance(body[0], ast.Return) and body[0].value is not None:
+            if len(m.params) == 1:
+                return body[0].value
+        return None
+    return inline
+
+
 def cfg_of(unit, **kw):
-    key = (id(unit), tuple(sorted((k, id(v) if callable(v) else v) for k, v in kw.items())))
+    if 'inline' not in kw:
+        kw['inline'] = helper_inliner(unit)
+    key = (id(unit), tuple(sorted((k, id(v) if callable(v) else v) for k, v in kw.items() if k != 'inline')))
     if key not in _cfg_cache:
         _cfg_cache[key] = (unit, CFG(unit, **kw))
     return _cfg_cache[key][1]
